@@ -42,6 +42,7 @@ class Spec:
         self.source = None
         self.define = []
         self.declare = []
+        self.lambdas = []   # (function, variable): lambdas of big functions lowered on their own
         self.types = []
         self.globals = []
         self.prologue = []
@@ -70,6 +71,8 @@ class Spec:
                     self.define += parts[1:]
                 elif d == '@declare':
                     self.declare += parts[1:]
+                elif d == '@lambda':
+                    self.lambdas.append((parts[1], parts[2]))
                 elif d == '@types':
                     self.types += parts[1:]
                 elif d == '@globals':
@@ -254,6 +257,11 @@ class Lowering:
                 if mtp.group(2) == 'duration':
                     return ns
                 return T('tmpl', 'std::chrono::time_point', args=[T('rec', 'std::chrono::' + mtp.group(1)), ns])
+            if name == 'std::filesystem::path' and self.spec.options.get('path_model') == 'text':
+                # '@option path_model text': a path is its text (POSIX: generic and native format coincide, '/' is the only
+                # separator); filename() is modelled by cxx_path_filename (libmodel)
+                self.models_note = getattr(self, 'models_note', set()) | {'std::filesystem::path as its POSIX text'}
+                return self.resolve(parse_type('std::string'))
             if name in SYSREC:
                 return T('rec', name)
             # user typedef / alias / record / enum
@@ -582,6 +590,28 @@ class Unit(Lowering, ExprMixin, CallMixin, StmtMixin):
             for cid in self.find_fn(name, want_body=True):
                 if cid not in self.fnmap:
                     self.request_fn(cid)
+        for fname, var in self.spec.lambdas:
+            # a non-capturing lambda bound to a local variable of a (possibly huge) function, lowered as a function of its own:
+            # <function>__lambda_<variable>.  Must-fire: the function and exactly one such variable must exist.
+            found = []
+            for cid in self.find_fn(fname, want_body=True):
+                def walk(n):
+                    if n.get('kind') == 'VarDecl' and n.get('name') == var:
+                        lam = self.strip_to_lambda(n)
+                        if lam is not None:
+                            found.append((cid, lam))
+                            return
+                    for c in n.get('inner', []):
+                        walk(c)
+                walk(self.defnodes[cid])
+            if len(found) != 1:
+                raise LoweringError(f'@lambda {fname} {var}: {len(found)} lambdas bound to a variable of that name (renamed or removed?)')
+            cid, lam = found[0]
+            self.cur = {'name': mangle(self.ix.qname.get(cid) or fname), 'locals': {}, 'captures': {}}
+            res = self.lambda_fn(lam, name=var)
+            self.cur = None
+            if res['captures']:
+                raise LoweringError(f'@lambda {fname} {var}: the lambda captures, cannot be lowered on its own')
         done = set()
         while self.queue:
             cid = self.queue.pop(0)
